@@ -122,6 +122,11 @@ class FakeClient:
     async def __aexit__(self, *exc) -> None:
         self.broker.exited += 1
         await asyncio.sleep(0)
+        if getattr(self.broker, "exit_hang", None) is not None:
+            self.broker.exit_hang.set()
+            await asyncio.Event().wait()  # the broker never acknowledges the DISCONNECT: only a cancellation of the leaving task ends this
+        if getattr(self.broker, "exit_exc", None) is not None:
+            raise self.broker.exit_exc("socket error while disconnecting")  # what the socket layer raises is no MqttError; the connection is not reported closed
         if not self._disconnected.done():
             self._disconnected.set_result(None)
         if self.broker.fail_exit:
@@ -179,9 +184,15 @@ def make_mqtt_for_lifecycle(fault: str) -> CountingMQTTClient:
     broker = FakeBroker()
     broker.fail_connect = fault in ("connect", "connect-once")
     broker.fail_connect_once = fault == "connect-once"
+    if fault in ("disconnect-oserror", "body+disconnect-oserror"):
+        broker.exit_exc = OSError  # type: ignore[attr-defined]
+    if fault == "disconnect-mqtterror":
+        broker.fail_exit = True
     _patch(broker)
     client = CountingMQTTClient("broker.invalid", 1883, "gw-out", "gw-in")
     client.broker = broker  # type: ignore[attr-defined]
+    if fault == "disconnect-hang":
+        client.hanging = broker.exit_hang = asyncio.Event()  # type: ignore[attr-defined]
     return client
 
 
